@@ -143,7 +143,9 @@ Definition step_C05 (pd : digest) (o : op) (ob : obs) : bool :=
                                       | None => [] end
                           | None => [] end) targets in
           mset_eqb (fun a b => N.eqb (fst a) (fst b) && smsg_eqb (snd a) (snd b)) copies expect
-          && forallb (fun e => negb (N.eqb (fst e) c)) copies
+          (* never back to the sender - except the copy for one of the sender's own virtual sessions, which
+             lives on the sender's connection (recipient rewritten to the virtual id) *)
+          && forallb (fun e => negb (N.eqb (fst e) c) || match snd e with SMsg _ _ _ _ (Some (RcptVirtual _)) _ => true | _ => false end) copies
       end
   | _ => true
   end.
@@ -347,7 +349,15 @@ Definition step_C19 (pd : digest) (o : op) (ob : obs) (dg : digest) : bool :=
             end
       end
   | _ => true
-  end.
+  end
+  (* whatever the op: a virtual session that was in a room and is gone after the step has left that room for
+     its backend too (the "remove" request was made) - also when it went with its internal client *)
+  && forallb (fun x =>
+       if is_virtual_d x && negb (live dg x.(d_sid)) then
+         match x.(d_room) with
+         | Some k => existsb (fun b => breq_eqb b (x.(d_backend), 2, 3, snd k, x.(d_sid), 1)) ob.(o_breqs)
+         | None => true end
+       else true) pd.(g_sessions).
 
 (* ------------------------------------------------------------------ stateful clauses: observers (C04) and resume (C06) *)
 Record pstate := mkps {
@@ -554,6 +564,12 @@ Definition check_step_spec (which : N) (cfg : pcfg) (last : bool) (ps : pstate) 
   | 0 => match which with
          | 4 => if (cfg.(pc_quiescent) || last) && negb (observers_ok md' (update_views md dg ob ps.(ps_view))) then 12 else 0
          | 8 => if hold_ok md' dg then 0 else 13
+         (* nothing is open, or held, in the implementation that the model has closed ("outlives its owner") *)
+         | 9 => if forallb (fun x => match find_sd md' x.(d_sid) with
+                                     | Some y => N.eqb (N.lor x.(d_pubs) y.(d_pubs)) y.(d_pubs) && (x.(d_nsubs) <=? y.(d_nsubs))
+                                     | None => true end) dg.(g_sessions)
+                   && (negb (N.eqb dg.(g_mcupending) md'.(g_mcupending)) || (dg.(g_mcuopen) <=? md'.(g_mcuopen)))
+                then 0 else 14
          | _ => 0 end
   | n => n
   end.
